@@ -1701,6 +1701,9 @@ def check_subspec_registration(ix, rep, rule='R-EVERYPATH'):
     cfg = flow.CFG(f.node)
     ext = [n for n in cfg.nodes() if isinstance(cfg.stmt[n], (ast.Assign, ast.AugAssign)) and 'modular_spec' in ast.unparse(cfg.stmt[n].targets[0] if isinstance(cfg.stmt[n], ast.Assign) else cfg.stmt[n].target)
            and any(isinstance(x, ast.Name) and x.id == p for x in ast.walk(cfg.stmt[n].value))]
+    ext += [n for n in cfg.nodes() if isinstance(cfg.stmt[n], ast.Expr) and isinstance(cfg.stmt[n].value, ast.Call) and isinstance(cfg.stmt[n].value.func, ast.Attribute)
+            and cfg.stmt[n].value.func.attr == 'append' and ast.unparse(cfg.stmt[n].value.func.value).startswith('self.')
+            and any(isinstance(x, ast.Name) and x.id == p for a_ in cfg.stmt[n].value.args for x in ast.walk(a_))]
     blocked = set(ext)
     seen = set()
     stack = [cfg.entry]
